@@ -1,12 +1,84 @@
-(* props/C33.v — property theorems for C33 (query evaluation never fails internally). *)
+(* props/C33.v — property theorems for C33 (query evaluation never fails internally).
+
+   C33 is PARTIAL by nature. The theorems below are about a Gallina model of the typing
+   (parser.checkAST), the preprocessing (promql.PreprocessExpr) and the control structure of
+   the evaluator (evaluator.eval: every type assertion on values and AST nodes, every index
+   into a scalar's sample, every explicit panic), with all data-dependent behaviour given by an
+   arbitrary world. They establish the *typing* reason why evaluation cannot get stuck. They
+   cannot establish the absence of nil dereferences or slice panics in Go code that the model
+   does not contain (function bodies, histogram arithmetic, pooled buffers), nor independence
+   of concurrently evaluated queries: that part of C33 rests on the generated runs of the
+   harness (testing) only.
+
+   Full statement (C33_type_soundness):
+     forall e t, check_ast e = TyOk t -> forall w k, steps k >= 1 -> sound_query w k e t
+   It is FALSE of the faithful model and of the code (C33_type_soundness_refuted, finding
+   info-selector-step-invariant-wrapped). Proved: the statement for all expressions in which no
+   info() label-selector argument carries an @ modifier (C33_type_soundness_partial). *)
 From Coq Require Import List ZArith Bool String.
 From Verif Require Import model.PromqlTyping proof.PromqlTypingProofs.
 Import ListNotations.
 Local Open Scope string_scope.
 
+(* Type soundness. If checkAST accepts e with type t, then for every world (all stored data, all
+   data-dependent results and user-facing errors, all subquery step counts) and every query kind
+   (instant; range with any number n >= 1 of steps), running the query — preprocessing,
+   evaluation, conversion of the result — never ends in an internal failure: it yields a value
+   of type t (a matrix for range queries), a user-facing error, or, for a range query on a
+   range-vector/string expression, the documented refusal.
+   Side condition (what is missing for the full statement): info_plain e. *)
+Theorem C33_type_soundness_partial :
+  forall e t, check_ast e = TyOk t -> info_plain e = true ->
+  forall w k, match k with QRange n => (1 <= n)%nat | QInstant => True end ->
+  sound_query w k e t.
+Proof. exact type_soundness. Qed.
+
+(* The side condition cannot be dropped: info(foo, {version="v1"} @ 100) is accepted by checkAST
+   with type vector, and evaluating it (instant and range) ends in the internal failure of the
+   type assertion args[1].(parser.VectorSelector). Replayed on the real engine by the harness
+   (corpus case info-at-selector). *)
+Theorem C33_type_soundness_refuted :
+  exists e t w, check_ast e = TyOk t /\
+    run_query w QInstant e = QInternal FAssertNode /\ run_query w (QRange 3) e = QInternal FAssertNode.
+Proof. exact type_soundness_refuted. Qed.
+
+(* Ill-typed expressions are rejected before evaluation, whatever the data and the query kind. *)
+Theorem C33_untyped_rejected :
+  forall e, check_ast e = TyErr -> forall w k, run_query w k e = QRejected.
+Proof. exact untyped_rejected. Qed.
+
+(* The evaluator on preprocessed well-typed trees, in every evaluator context in which a node can
+   be reached (any number of steps, including the empty range of a subquery): a value of the
+   node's type or a user-facing error. *)
+Theorem C33_eval_sound :
+  forall w e, wtp e = true -> forall n, ctx_ok n e -> sound n (type_of e) (eval w n e).
+Proof. exact eval_sound. Qed.
+
+(* checkAST + PreprocessExpr establish the invariant the evaluator relies on (string arguments
+   are StringLiteral nodes, range-vector arguments are MatrixSelector/SubqueryExpr nodes,
+   StepInvariantExpr wraps scalars and instant vectors only, ...), and preserve the type. *)
+Theorem C33_preprocess_establishes_invariant :
+  forall e, check e = true -> info_plain e = true ->
+  exists pe, preprocess e = Some pe /\ wtp pe = true /\ type_of pe = type_of e.
+Proof. exact preprocess_wtp. Qed.
+
 (* The function tables satisfy what the evaluator's Call case relies on: functions return
-   scalars or vectors only; a function with a range-vector parameter has exactly one, and all
-   its other parameters are scalars; only label_replace/label_join/info (special-cased) and
-   start/end/range/step (folded away) have no FunctionCalls entry. *)
+   scalars or vectors only; a function with a range-vector parameter is not variadic, has exactly
+   one such parameter, and all its other parameters are scalars; only label_replace/label_join/
+   info (special-cased) and start/end/range/step (folded away) have no FunctionCalls entry. *)
 Theorem C33_function_tables_wf : ftab_wf ftab = true.
 Proof. exact ftab_wf_ok. Qed.
+
+(* Non-vacuity: well-typed queries that meet the side condition and evaluate to values
+   (ex_topk is the repaired finding agg-param-not-preprocessed), and ill-typed ones. *)
+Example C33_ex_topk :
+  check_ast ex_topk = TyOk TVector /\ info_plain ex_topk = true /\
+  run_query canon_world QInstant ex_topk = QValue TVector /\ run_query canon_world (QRange 3) ex_topk = QValue TMatrix.
+Proof. exact ex_topk_ok. Qed.
+Example C33_ex_rate :
+  check_ast ex_rate = TyOk TVector /\ info_plain ex_rate = true /\
+  run_query canon_world QInstant ex_rate = QValue TVector /\ run_query canon_world (QRange 3) ex_rate = QValue TMatrix.
+Proof. exact ex_rate_ok. Qed.
+Example C33_ex_illtyped :
+  check_ast (EUn 1 EStr) = TyErr /\ check_ast (ECall 1 "rate" [EVec 2 (mkVS true false true false)]) = TyErr.
+Proof. exact ex_illtyped. Qed.
